@@ -115,8 +115,8 @@ Ltac go_rw :=
     | rewrite exec_putle | rewrite exec_putbe | rewrite exec_callext ].
 Ltac go_cbn :=
   cbn [eval eval_list ebind as_int as_bool as_ints of_eres assign assign_all lookup update flookup fupdate
-       String.eqb Ascii.eqb Bool.eqb arith opt_int ret_values read_lval write_back builtin bind_params plookup
-       f_params f_body fst snd].
+       String.eqb Ascii.eqb Bool.eqb arith compare opt_int ret_values read_lval write_back builtin bind_params plookup
+       f_params f_body fst snd rev app].
 Ltac go_step := go_rw; go_cbn.
 
 (* ------------------------------------------------------------------ integers: Z of the interpreter, N of the models *)
@@ -134,6 +134,17 @@ Qed.
 Lemma of_N_mod a b : (b <> 0)%N -> Z.of_N (a mod b) = Z.of_N a mod Z.of_N b.
 Proof. intros H. apply N2Z.inj_mod. Qed.
 
+Lemma of_N_eqb a b : (Z.of_N a =? Z.of_N b) = N.eqb a b.
+Proof. destruct (N.eqb_spec a b) as [->|H]; [apply Z.eqb_refl|]. apply Z.eqb_neq. intros E. apply N2Z.inj in E. contradiction. Qed.
+Lemma of_N_ltb a b : (Z.of_N a <? Z.of_N b) = N.ltb a b.
+Proof. destruct (N.ltb_spec a b); [apply Z.ltb_lt|apply Z.ltb_ge]; lia. Qed.
+Lemma of_N_leb a b : (Z.of_N a <=? Z.of_N b) = N.leb a b.
+Proof. destruct (N.leb_spec a b); [apply Z.leb_le|apply Z.leb_gt]; lia. Qed.
+Lemma of_nat_ltb a b : (Z.of_nat a <? Z.of_nat b) = Nat.ltb a b.
+Proof. destruct (Nat.ltb_spec a b); [apply Z.ltb_lt|apply Z.ltb_ge]; lia. Qed.
+Lemma of_nat_leb a b : (Z.of_nat a <=? Z.of_nat b) = Nat.leb a b.
+Proof. destruct (Nat.leb_spec a b); [apply Z.leb_le|apply Z.leb_gt]; lia. Qed.
+
 Lemma wrap_u64 z : wrap U64 z = z mod 18446744073709551616.
 Proof. reflexivity. Qed.
 Lemma wrap_i64_small z : - 9223372036854775808 <= z < 9223372036854775808 -> wrap I64 z = z.
@@ -141,7 +152,16 @@ Proof. intros H. apply wrap_signed_id; [reflexivity|]. cbn. lia. Qed.
 Lemma wrap_u64_small z : 0 <= z < 18446744073709551616 -> wrap U64 z = z.
 Proof. intros H. apply wrap_unsigned_id; [reflexivity|]. cbn. lia. Qed.
 
-(* comparisons of closed numerals (shift counts, lengths of literal arrays) are decided by computation *)
+(* comparisons of closed numerals (shift counts, lengths of literal arrays) are decided by computation; the
+   operands must be numerals syntactically (vm_compute on an open term can blow up) *)
+Ltac is_pos_const p :=
+  match p with xH => idtac | xO ?q => is_pos_const q | xI ?q => is_pos_const q end.
+Ltac is_Z_const z :=
+  match z with Z0 => idtac | Zpos ?p => is_pos_const p | Zneg ?p => is_pos_const p end.
+Ltac is_nat_const n :=
+  match n with O => idtac | S ?m => is_nat_const m end.
+Ltac is_list_spine l :=
+  match l with nil => idtac | cons _ ?t => is_list_spine t end.
 Ltac go_const_bool t :=
   let v := eval vm_compute in t in
   match v with
@@ -150,8 +170,33 @@ Ltac go_const_bool t :=
   end.
 Ltac go_consts :=
   repeat match goal with
-  | |- context [Z.ltb ?a ?b] => go_const_bool (Z.ltb a b)
-  | |- context [Z.leb ?a ?b] => go_const_bool (Z.leb a b)
-  | |- context [Z.eqb ?a ?b] => go_const_bool (Z.eqb a b)
+  | |- context [zlen ?l] => is_list_spine l; let v := eval cbv in (Z.of_nat (List.length l)) in change (zlen l) with v
+  | |- context [Z.of_nat ?a] => is_nat_const a; let v := eval vm_compute in (Z.of_nat a) in change (Z.of_nat a) with v
+  | |- context [Z.to_nat ?a] => is_Z_const a; let v := eval vm_compute in (Z.to_nat a) in change (Z.to_nat a) with v
+  | |- context [Z.sub ?a ?b] => is_Z_const a; is_Z_const b; let v := eval vm_compute in (Z.sub a b) in change (Z.sub a b) with v
+  | |- context [Z.ltb ?a ?b] => is_Z_const a; is_Z_const b; go_const_bool (Z.ltb a b)
+  | |- context [Z.leb ?a ?b] => is_Z_const a; is_Z_const b; go_const_bool (Z.leb a b)
+  | |- context [Z.eqb ?a ?b] => is_Z_const a; is_Z_const b; go_const_bool (Z.eqb a b)
   end.
-Ltac go_run := repeat (progress (go_step; go_consts; cbn [andb orb negb])).
+Ltac go_run := repeat (progress (go_step; go_consts; cbn [andb orb negb repeat])).
+
+(* ------------------------------------------------------------------ byte windows *)
+Lemma blit_length : forall (l : list Z) lo s, List.length (blit l lo s) = List.length l.
+Proof.
+  induction l as [|h t IH]; intros lo s.
+  - destruct lo; [destruct s|]; reflexivity.
+  - destruct lo as [|j]; cbn [blit].
+    + destruct s as [|x xs]; [reflexivity|]. cbn [List.length]. rewrite IH. reflexivity.
+    + cbn [List.length]. rewrite IH. reflexivity.
+Qed.
+Lemma zlen_blit l lo s : zlen (blit l lo s) = zlen l.
+Proof. unfold zlen. rewrite blit_length. reflexivity. Qed.
+Lemma blit_full : forall (l s : list Z), List.length s = List.length l -> blit l O s = s.
+Proof.
+  induction l as [|h t IH]; intros s H; destruct s as [|x xs]; cbn [List.length] in H; try discriminate; [reflexivity|].
+  cbn [blit]. rewrite IH by lia. reflexivity.
+Qed.
+Lemma slice_z_all l : slice_z l 0 (zlen l) = l.
+Proof. unfold slice_z, zlen. rewrite Z.sub_0_r, Nat2Z.id. cbn [Z.to_nat skipn]. apply firstn_all. Qed.
+Lemma zlen_nonneg l : 0 <= zlen l.
+Proof. unfold zlen. lia. Qed.
